@@ -72,11 +72,13 @@ def phony_outs(g):
 class Content:
     """expected(node): content a from-scratch build of the current sources and manifest produces."""
 
-    def __init__(self, g, files):
+    def __init__(self, g, files, frozen=()):
+        """frozen: keys of statements whose outputs are taken from disk as they are (counterfactual worlds only)"""
         self.g, self.files = g, files
         self.prod = producer_map(g)
         self.ph = phony_outs(g)
         self.memo = {}
+        self.frozen = set(frozen)
 
     def edge_hash(self, e, read_content):
         acc = key(e) + "|" + content_variant(e) + "|"
@@ -98,6 +100,10 @@ class Content:
         if p['phony']:
             self.memo[node] = None
             return None
+        if key(p) in self.frozen:
+            v = self.files[node]['c'] if node in self.files else None
+            self.memo[node] = v
+            return v
         if key(p) in stack:
             return None
         h = self.edge_hash(p, lambda r: self.expected(r, stack + (key(p),)))
@@ -193,7 +199,7 @@ class Make:
             return False, []
         return True, list(self.dfile[df])
 
-    def plan(self, g, files, targets, cf_dirty_ignores_discovered=False, cf_trust_after_failed_touch=False):
+    def plan(self, g, files, targets, cf_dirty_ignores_discovered=False, cf_trust_after_failed_touch=False, assume_flip=()):
         """-> dict(run=[keys in a valid order], error=None|str, why={key: reason}, order=[(a,b): a must finish before b])"""
         prod = producer_map(g)
         why = {}
@@ -336,7 +342,7 @@ class Make:
         # -- which dirty edges really run: own reason, or an input is actually rewritten by an edge that runs
         runs = []
         rewritten = {}
-        cont = Content(g, files)
+        cont = Content(g, files, frozen=trusted)
         for e in order:
             k = key(e)
             s = state[k]
@@ -364,10 +370,10 @@ class Make:
                 continue
             runs.append(k)
             for o in all_outs(e) + dd_outs(g, e):
-                if e['restat'] and o in files and files[o]['c'] == cont.expected(o):
-                    rewritten[o] = False
-                else:
-                    rewritten[o] = True
+                same = e['restat'] and o in files and files[o]['c'] == cont.expected(o)
+                if e['restat'] and o in files and k in assume_flip:
+                    same = not same
+                rewritten[o] = not same
         return dict(run=runs, error=None, why=why, disc=disc_used, reached=reached, ignored=ignored, trusted=trusted)
 
     def own_dirty(self, g, e, files, newest_input, cf_trust=False):
